@@ -59,3 +59,11 @@ claim("C08", "stateless model checking of the implementation: controlled coopera
   "All schedules of 12 small colliding scenarios (3-4 threads plus AllKeysChan goroutines) x 3 configurations are enumerated up to pre-emption bound 2 (quick) / 4 (thorough) on the real blockstore, storage and deferred-writer code; each schedule is judged for panics, deadlock, happens-before races on the index and writer objects, linearizability w.r.t. a set model, listing consistency and a strictly well-formed final file. A free-running -race pass is a separately reported sampling complement.",
   "Scheduling points only at lock acquisition, channel operations, goroutine start and harness yields; unhooked unsynchronised memory only seen by the sampling -race complement; 16 goroutines not explored exhaustively; the shim models Go's RWMutex writer preference.",
   "DESIGN.md 5/C08, A.1")
+claim("C17", "bounded-exhaustive enumeration (deviation bound: two hostile entries) of crafted UnixFS archives x output-directory states, extracted by the real car binary; before/after snapshot oracle",
+  "Every archive with up to two hostile entries (9 names x 9 kinds incl. symlinks to relative/absolute outside targets) in every placement (same directory, two roots, parent/child, non-directory roots) is extracted by the built car binary into empty/pre-populated/absent output directories; a recursive snapshot of everything outside the output directory must be unchanged.",
+  "Own dag-pb/UnixFS encoder trusted; sharded directories not generated; deviation bound 2.",
+  "DESIGN.md 5/C17")
+claim("C18", "bounded-exhaustive enumeration of directory trees x CLI flags, packed and extracted by the real car binary; tree-equality oracle",
+  "Every tree up to the entry bound over 4 names x 5 kinds (plus chunk-boundary file sizes, depth-6 nesting, a sharded directory) is packed with car create (v1/v2, wrap/no-wrap, directory/single source) and extracted from file and from a pipe; trees are compared by names, contents and link targets; the archive has one root equal to `car root` and stored.",
+  "Permissions/timestamps not compared; bare file/symlink roots with --no-wrap are outside the domain (no name to extract to).",
+  "DESIGN.md 5/C18")
